@@ -643,6 +643,8 @@ def oracle_attributes(ctx, book, world, case, observed):
                                f':: {case}', case, key='wrong-dependencies')
         want = book.expect[cls]
         got = observed[id(obj)]
+        if 'skipped' in got:
+            continue
         if 'error' in got:
             ctx.oracle_failure(f'executing task {obj.name!r} raises {got["error"]} :: {case}', case,
                                key='do-raises-' + got['error'])
@@ -764,6 +766,15 @@ def run_case(ctx, case, outroot, judge=True):
     for obj in world.objects[len(world.base):]:
         try:
             observed[id(obj)] = execute(world, obj, book.stats_fid)
+        except OSError as exc:
+            import errno
+            if exc.errno == errno.ENAMETOOLONG:
+                # the name of a task wrapped several times can exceed the file-name limit of the file
+                # system when the task writes its files: a limit of the platform, not of the property
+                observed[id(obj)] = {'skipped': 'ENAMETOOLONG'}
+                ctx.count('execution_skipped_name_too_long')
+            else:
+                observed[id(obj)] = {'error': type(exc).__name__}
         except Exception as exc:  # noqa
             observed[id(obj)] = {'error': type(exc).__name__}
     if judge:
@@ -1353,6 +1364,12 @@ def run(ctx):
     shard_size = 250
     shards = []
     cases = cases[:len(records)]
+    # a case in which the execution of a task was skipped (file name too long for the platform)
+    # cannot be compared with the model step by step: oracle only
+    keep = [i for i, r in enumerate(records) if 'ENAMETOOLONG' not in json.dumps(r, default=str)]
+    ctx.count('cases_not_sent_to_model', len(records) - len(keep))
+    cases = [cases[i] for i in keep]
+    records = [records[i] for i in keep]
     for k in range(0, len(cases), shard_size):
         items = [c_case(c, r) for c, r in zip(cases[k:k + shard_size], records[k:k + shard_size])]
         shards.append('Definition cases : list case :=\n [' + ';\n '.join(items)
